@@ -38,6 +38,10 @@ class AbstractValueWithQuantityObject:
     .. see:: L{Scalar} for an implementation example
     """
 
+    # Makes numpy arrays and scalars defer to our reflected operators (e.g. ``ndarray * Array``),
+    # instead of treating this object as a plain sequence and dropping the unit.
+    __array_priority__ = 100.0
+
     def __init__(
         self, category: Union[str, Quantity], value: Any = None, unit: Optional[str] = None
     ):
